@@ -253,7 +253,19 @@ def evalPrefix (prefixes : Std.HashMap String Numeric) : Expr → Except String 
 /-- `Dimensionality::pow` (multiplies in place; keeps zero entries) -/
 def dimPowRaw (d : Dim) (e : Int) : Dim := d.map fun (k, p) => (k, p * e)
 
-/-- `eval_quantity` -/
+def i64ok (x : Int) : Bool := decide (-9223372036854775808 ≤ x) && decide (x ≤ 9223372036854775807)
+
+/-- `Dimensionality::checked_pow`: `None` when a power leaves `i64` -/
+def dimPowChecked (d : Dim) (e : Int) : Except String Dim :=
+  let r := dimPowRaw d e
+  if r.all (fun kp => i64ok kp.2) then .ok r else .error "Exponent is too big"
+
+/-- `Dimensionality::checked_mul`: `None` when the sum of the powers of a shared unit leaves `i64` -/
+def dimMulChecked (a b : Dim) : Except String Dim :=
+  if a.all (fun kp => !(b.any fun kq => kq.1 == kp.1) || i64ok (kp.2 + Dim.get b kp.1)) then .ok (Dim.mul a b)
+  else .error "Exponent is too big"
+
+/-- `eval_quantity` (after the fix: exponents that leave `i64` are errors) -/
 def evalQuantity (st : LS) : Expr → Except String Dim
   | .unit name =>
     if st.baseUnits.contains name then .ok (Dim.baseUnit name)
@@ -261,18 +273,23 @@ def evalQuantity (st : LS) : Expr → Except String Dim
       | some d => .ok d
       | none => .error "No quantity or base unit"
   | .const v => if v == .one then .ok [] else .error "Invalid expression in quantity"
-  | .mul es => es.foldlM (fun acc e => do let d ← evalQuantity st e; pure (Dim.mul acc d)) []
+  | .mul es => es.foldlM (fun acc e => do let d ← evalQuantity st e; dimMulChecked acc d) []
   | .binop .frac l r => do
     let a ← evalQuantity st l
     let b ← evalQuantity st r
-    pure (Dim.div a b)
+    let b' ← dimPowChecked b (-1)
+    dimMulChecked a b'
   | .binop .pow l r => do
     let a ← evalQuantity st l
     match r with
-    | .const (.rational q) => .ok (dimPowRaw a (Int.tdiv q.num q.den))
-    | .unary .negative (.const (.rational q)) => .ok (dimPowRaw a (-(Int.tdiv q.num q.den)))
+    | .const (.rational q) =>
+      let t := Int.tdiv q.num q.den
+      if i64ok t then dimPowChecked a t else .error "RHS of `^` is too big"
+    | .unary .negative (.const (.rational q)) =>
+      let t := Int.tdiv q.num q.den
+      if i64ok t then dimPowChecked a (-t) else .error "RHS of `^` is too big"
     | _ => .error "RHS of `^` must be a constant"
-  | .unary .negative e => do let d ← evalQuantity st e; pure (Dim.recip d)
+  | .unary .negative e => do let d ← evalQuantity st e; dimPowChecked d (-1)
   | _ => .error "Invalid expression in quantity"
 
 def mkCtx (st : LS) (temps : Std.HashMap String Number) : Ctx :=
